@@ -480,7 +480,8 @@ def empty_desc():
 def systematic_cases():
     """One cell of the attribute rule at a time, smallest matrices first: category x definition in target (absent / same default /
     different default / no default) x source (explicit / default / no value) x bystander (explicit / default) x STRING/ENUM x
-    same-named ECU already in the target, under every kind of copy request."""
+    same-named ECU already in the target x frame and signal NAMES of the copied frame already used by a target frame under another id,
+    under every kind of copy request (incl. a merge of two sources that share the names)."""
     cases = []
     for cat in ("sig", "frame", "ecu"):
         for enum in (False, True):
@@ -490,13 +491,21 @@ def systematic_cases():
             for tstate in ("absent", "same", "different", "nodefault"):
                 for sstate in ("default", "explicit", "novalue"):
                     for byst in ("default", "explicit"):
-                        for pre_a in (False, True, "explicit"):
+                        # frame/signal NAMES are independent of identifiers: the target's own frame may carry the name of the
+                        # copied frame (and an equally named signal) under another id; lookups by name must not reach it
+                        for pre_a, names in ((False, "distinct"), (True, "distinct"), ("explicit", "distinct"),
+                                             (False, "same-frame-name"), (False, "same-frame-and-signal-name")):
                             src = empty_desc()
                             sat = [[a, sexpl]] if sstate == "explicit" else []
                             src["defs"][cat].append([a, defstr(a, slist), None if sstate == "novalue" else sdefault])
                             src["ecus"] = [["A", None, sat if cat == "ecu" else []], ["B", "cb", []]]
                             src["frames"] = [frame_desc("F1", 0x10, tx=["A"], attrs=sat if cat == "frame" else [],
                                                         sigs=[sig_desc("s1", recv=["B"], attrs=sat if cat == "sig" else [], values=[[1, "on"]])])]
+                            # a second source for merges: the same names under another identifier, another default
+                            src2 = pycopy.deepcopy(src)
+                            src2["frames"][0]["id"] = 0x11
+                            if sstate != "novalue":
+                                src2["defs"][cat][0][2] = tother
                             tgt = empty_desc()
                             bat = [[a, bexpl]] if byst == "explicit" else []
                             if tstate != "absent":
@@ -505,21 +514,31 @@ def systematic_cases():
                             tgt["ecus"] = [["Z", None, bat if cat == "ecu" else []]]
                             if pre_a:
                                 tgt["ecus"].append(["A", "mine", [[a, bexpl]] if (pre_a == "explicit" and cat == "ecu") else []])
-                            tgt["frames"] = [frame_desc("G", 0x20, tx=["Z"], attrs=bat if cat == "frame" else [],
-                                                        sigs=[sig_desc("t1", recv=["Z"], attrs=bat if cat == "sig" else [])])]
-                            ops = [[dict(op="frame", id=0x10, ext=False)], [dict(op="merge", n=1)], [dict(op="signal", glob="s1")],
-                                   [dict(op="ecu", glob="A")], [dict(op="ecu_frames", glob="A", rx=True, tx=True, direct=True)],
-                                   [dict(op="ecu_frames", glob="B", rx=True, tx=False, direct=True)],
-                                   [dict(op="ecu_frames", glob="B", rx=True, tx=True, direct=False)],
-                                   [dict(op="ecu_frames", glob="*", rx=False, tx=True, direct=False)]]
+                            tfname = "G" if names == "distinct" else "F1"
+                            tsname = "s1" if names == "same-frame-and-signal-name" else "t1"
+                            tgt["frames"] = [frame_desc(tfname, 0x20, tx=["Z"], attrs=bat if cat == "frame" else [],
+                                                        sigs=[sig_desc(tsname, recv=["Z"], attrs=bat if cat == "sig" else [])])]
+                            ops = [([dict(op="frame", id=0x10, ext=False)], [src]), ([dict(op="merge", n=1)], [src]),
+                                   ([dict(op="signal", glob="s1")], [src]),
+                                   ([dict(op="ecu", glob="A")], [src]),
+                                   ([dict(op="ecu_frames", glob="A", rx=True, tx=True, direct=True)], [src]),
+                                   ([dict(op="ecu_frames", glob="B", rx=True, tx=False, direct=True)], [src]),
+                                   ([dict(op="ecu_frames", glob="B", rx=True, tx=True, direct=False)], [src]),
+                                   ([dict(op="ecu_frames", glob="*", rx=False, tx=True, direct=False)], [src]),
+                                   ([dict(op="merge", n=2)], [src2, src])]
+                            if names != "distinct":
+                                ops = [ops[0], ops[1], ops[4], ops[8]]
                             if cat == "sig" and enum and sstate == "novalue":
                                 # copy_signal has no `is None: continue`: an ENUM definition without default and a signal without value
                                 # makes Define.update() raise (outside the property's text; tied as an error)
-                                ops[2][0]["expect_raise"] = True
-                            for o in ops:
-                                cell = "%s/%s/tgt-%s/src-%s/byst-%s%s" % (cat, "ENUM" if enum else "STRING", tstate, sstate, byst,
-                                                                          "/same-named-ecu" if pre_a else "")
-                                cases.append(dict(stream="systematic", cell=cell, target=tgt, history=[(o[0], [src])]))
+                                for o, _ in ops:
+                                    if o[0]["op"] == "signal":
+                                        o[0]["expect_raise"] = True
+                            for o, srcs in ops:
+                                cell = "%s/%s/tgt-%s/src-%s/byst-%s%s%s" % (cat, "ENUM" if enum else "STRING", tstate, sstate, byst,
+                                                                            "/same-named-ecu" if pre_a else "",
+                                                                            "" if names == "distinct" else "/" + names)
+                                cases.append(dict(stream="systematic", cell=cell, target=tgt, history=[(o[0], srcs)]))
     return cases
 
 
@@ -566,7 +585,8 @@ def gen_matrix(rng, shared=False, malformed=False, ecu_pool=("E0", "E1", "E2", "
                                  values=rng.choice([[], [[0, "off"], [1, "on"]]])))
         if malformed and sigs and rng.random() < 0.3:
             sigs.append(pycopy.deepcopy(sigs[0]))           # duplicate signal name (signal_by_name finds the first)
-        d["frames"].append(frame_desc("F%x%s" % (fid, "x" if ext else ""), fid, ext, size=rng.choice([2, 8]),
+        # names from a small pool shared by all matrices, independent of the identifier (same name / other id, same id / other name)
+        d["frames"].append(frame_desc(rng.choice(["FA", "FB", "FC"]), fid, ext, size=rng.choice([2, 8]),
                                       tx=rng.sample(allecus, rng.choice([0, 1, 1, 2])), comment=rng.choice(["", "cmt"]),
                                       attrs=attrs_for("frame"), sigs=sigs, fd=rng.random() < 0.2, cycle=rng.choice([0, 100])))
     if malformed and d["frames"] and rng.random() < 0.3:
@@ -697,8 +717,10 @@ def shared_name_probe(chk, C, cp):
 def run(chk):
     chk.rule = ("systematic stream: every cell of the attribute rule (category ecu/frame/signal x STRING/ENUM x definition in the target "
                 "absent/same default/different default/no default x source explicit/default/no value x bystander explicit/default x "
-                "same-named ECU already in the target) under 8 copy requests (frame by id, merge, signal, ECU, ECU with frames "
-                "rx/tx/both, direct or not, glob '*'); random stream: target and 1..4 sources drawn from small pools of ids, ECU names, "
+                "same-named ECU already in the target, and the target's frame carrying the NAME of the copied frame / also an equally named "
+                "signal under another identifier) under 9 copy requests (frame by id, merge of one source, merge of two sources with the "
+                "same frame and signal names under different ids and different defaults, signal, ECU, ECU with frames "
+                "rx/tx/both, direct or not, glob '*'); random stream (frame names from a pool of 3 independent of ids, signal names from a pool of 4): target and 1..4 sources drawn from small pools of ids, ECU names, "
                 "definitions (equal names with different defaults, ENUM value lists, missing defaults), explicit values, histories of "
                 "1..4 copies/merges; shared-names and malformed streams (names shared across categories, duplicate ids/signal names, "
                 "ENUM vs STRING under one name, absent ids) are tied only. non-trivial = the history changed a non-empty target; "
@@ -715,7 +737,7 @@ def run(chk):
     shared_name_probe(chk, C, cp)
 
     cases = systematic_cases()
-    n_random = 7000 if not thorough else 120000
+    n_random = 6000 if not thorough else 120000
     for i in range(n_random):
         r = rng.random()
         cases.append(random_case(rng, "random" if r < 0.8 else ("shared-names" if r < 0.9 else "malformed")))
